@@ -18,7 +18,8 @@ Lemma source_switches :
   src_convert_separators_default = true /\ src_input_format_pushes_front = true /\
   src_input_format_disables_conversion = true /\ src_sep_from = (45, 46) /\ src_sep_to = 47 /\
   src_max_date_len = 127 /\ src_written_date_format = [37; 89; 47; 37; 109; 47; 37; 100] /\
-  src_format_cache_exact_match = true.
+  src_format_cache_exact_match = true /\
+  src_year_directive_unconditional = true /\ src_year_directive_month = 12 /\ src_year_directive_day = 31.
 Proof. repeat split. Qed.
 
 Definition I_md := [IDir 109; ILit 47; IDir 100].
@@ -1116,3 +1117,19 @@ Proof.
   destruct (Z.ltb_spec 126 (Z.of_nat (length w0))); [lia|].
   rewrite cmp_refl. cbn [negb]. rewrite (lex_has_year raw HY). reflexivity.
 Qed.
+
+(* ------------------------------------------------------------------ year directives *)
+Lemma year_directive_cur st yr : es_cur (year_directive st yr) = (yr, 12, 31).
+Proof. reflexivity. Qed.
+
+Lemma end_apply_year_directive st yr : end_apply (year_directive st yr) = Some st.
+Proof. destruct st. reflexivity. Qed.
+
+(* under a year directive MM/DD is that day of the named year, whatever the clock showed before *)
+Lemma parse_md_after_year_directive st yr m d zm zd s1 :
+  valid_ymd yr m d -> 1400 <= yr <= 9999 -> is_sep s1 ->
+  parse_date [] (es_cur (year_directive st yr)) (spell_md_sep m d zm zd s1) = DOk (boost_day_number yr m d).
+Proof.
+  intros V Hy H1. rewrite year_directive_cur. apply parse_md_spelled; try assumption. destruct V; lia.
+Qed.
+
